@@ -153,6 +153,8 @@ func (server *httpServer) handleHttpRequest(conn net.Conn) string {
 	conn.SetReadDeadline(time.Now().Add(httpReadTimeout))
 	section := 0
 	scanner := bufio.NewScanner(conn)
+	// The body arrives as one token unless it contains CRLF
+	scanner.Buffer(make([]byte, 0, 4096), maxContentLength+4096)
 	scanner.Split(func(data []byte, atEOF bool) (int, []byte, error) {
 		found := bytes.Index(data, []byte(crlf))
 		if found >= 0 {
